@@ -25,6 +25,7 @@ type FrameSt struct {
 	depth    int
 	unrolled map[*ssa.BasicBlock]int
 	ghostLocals map[string]bool
+	freeVars    map[string]Val
 }
 
 type deferred struct {
